@@ -39,7 +39,7 @@ func sameBig(a, b *Ev) bool {
 }
 
 func stackEq(a, b *Ev) bool {
-	if len(a.Stack) != len(b.Stack) {
+	if a.StackLen != b.StackLen || a.StackH != b.StackH || len(a.Stack) != len(b.Stack) {
 		return false
 	}
 	for i := range a.Stack {
@@ -74,7 +74,7 @@ func compareStreams(s, r []*Ev) (gasDiff, streamDiff string, at int) {
 			if streamDiff == "" && (!stackEq(a, b) || a.MemLen != b.MemLen || a.MemH != b.MemH || a.RDataLen != b.RDataLen || a.RDataH != b.RDataH ||
 				a.Self != b.Self || a.Caller != b.Caller || a.CodeAddr != b.CodeAddr) {
 				streamDiff = fmt.Sprintf("event %d %s pc=%d op=%02x: stack/memory/returndata/contract differ: stack %d vs %d, mem %d/%x vs %d/%x, rdata %d/%x vs %d/%x",
-					i, a.K, a.PC, a.Op, len(a.Stack), len(b.Stack), a.MemLen, a.MemH, b.MemLen, b.MemH, a.RDataLen, a.RDataH, b.RDataLen, b.RDataH)
+					i, a.K, a.PC, a.Op, a.StackLen, b.StackLen, a.MemLen, a.MemH, b.MemLen, b.MemH, a.RDataLen, a.RDataH, b.RDataLen, b.RDataH)
 				if at == 0 {
 					at = i
 				}
